@@ -71,7 +71,18 @@ func GenHistory(r *lib.Rng, e *Env, name string, t0 int64, w Weights, steps int,
 		{sc([]string{"relay:stats", "relay:admin"}, -1, 60), "admin"},
 		{sc([]string{"relay:admins", "read"}, -1, 60), "admin"}, // wrong scope, stays valid
 	}
-	labels := []string{"s-long", "s-expiring", "s-notyet", "s-iat-future", "s-nobooking", "adm-long", "adm-expiring", "adm-notyet", "stats-expiring", "both-long", "lookalike-long"}
+	// long-lived tokens for ANOTHER audience (another relay sharing the secret): refused at every presentation
+	other := func(b Bearer) Bearer {
+		b.Claims = cloneClaims(b.Claims)
+		b.Claims["aud"] = []string{"https://other-relay.example/access"}
+		b.Claims["exp"] = t0 + 86400
+		return b
+	}
+	pool = append(pool, pooled{other(mk(T1, b1, -2, -1, 60, []string{"read", "write"})), "session"},
+		pooled{other(sc([]string{"relay:admin"}, -1, 60)), "admin"}, pooled{other(sc([]string{"relay:stats"}, -1, 60)), "stats"},
+		pooled{mk(T2, b2, -2, -1, 90000, []string{"read"}), "session"}, pooled{sc([]string{"relay:admin"}, -1, 90000), "admin"})
+	labels := []string{"s-long", "s-expiring", "s-notyet", "s-iat-future", "s-nobooking", "adm-long", "adm-expiring", "adm-notyet", "stats-expiring", "both-long", "lookalike-long",
+		"s-other-audience-day", "adm-other-audience-day", "stats-other-audience-day", "s-day", "adm-day"}
 	for i := range pool {
 		pool[i].b.Label = "pool:" + labels[i]
 	}
@@ -284,6 +295,19 @@ func IdempotenceScripts(e *Env, name string, t0 int64, probes bool) []Case {
 		hb.Step(sessionReq("I"+name, ses, "step-repeat"))
 		hb.Step(paramReq("listdeny", adm, "", 0, "step-repeat"))
 		hb.Step(paramReq("deny", adm, bk, t0+500, "step"))
+	})
+	script("other-audience-thrice", func(hb *HistBuilder, adm Bearer) {
+		oa := ScopeBearer(host, t0, []string{"relay:admin"})
+		oa.Claims["aud"], oa.Claims["exp"] = []string{"https://other-relay.example/access"}, t0+86400
+		oa.Label = "script:admin-other-audience"
+		os := SessionBearer(host, t0, "I"+name, bk, []string{"read", "write"})
+		os.Claims["aud"], os.Claims["exp"] = []string{"https://other-relay.example/access"}, t0+86400
+		os.Label = "script:session-other-audience"
+		for k := 0; k < 3; k++ {
+			hb.Step(paramReq("deny", oa, bk, t0+50, "step-repeat"))
+			hb.Step(sessionReq("I"+name, os, "step-repeat"))
+			hb.Step(paramReq("listdeny", oa, "", 0, "step-repeat"))
+		}
 	})
 	script("notyet-then-valid", func(hb *HistBuilder, adm Bearer) {
 		late := SessionBearer(host, t0, "I"+name, bk, []string{"read"})
